@@ -9,7 +9,7 @@ CONSTANTS
   TargetPowers <- P_pm1
   MaxTFactors = 1
   ScaleKs <- K_one
-  Kinds <- Kinds_all
+  Kinds = {"list", "dict", "objarray", "array", "array2d"}
   PerturbNames <- N_base
   RegPool <- Regs2s
   Keys = {"energy"}
